@@ -27,8 +27,8 @@ sys.path.insert(0, str(pathlib.Path(__file__).resolve().parent.parent))
 import fragmenter  # noqa: E402
 from props import c05 as links  # noqa: E402  (layout generator, corpus list)
 
-DRIVERS = ["Frag"]
-TABLES = False
+DRIVERS = ["Frag", "RelRead"]
+TABLES = True  # Gen/Reads.lean: the read-side descriptor table (harness/gen_reads.py)
 LEVEL = "proof"
 RULE = ("layouts: for small models (writemodel, empty_project_52, filtering, library project) every single cut point "
         "whose subtree has >= 2 elements (quick: a seeded third of them, thorough: all) plus seeded sets of 2-4 (nested) "
@@ -726,7 +726,7 @@ def edit_witness_specs(ctx: Ctx, model: str, res: dict, n: int) -> list[dict]:
     return out
 
 
-def run_layout(ctx: Ctx, out: Outcome, spec: dict, si: int, model_cases: list | None):
+def run_layout(ctx: Ctx, out: Outcome, spec: dict, si: int, model_cases: list | None, read_cases: list | None = None):
     capellambse, helpers, core = _imports()
     base = ctx.scratch / f"c06-{si}"
     res = {k: links.data_dir() / v for k, v in spec.get("resources", {}).items()}
@@ -768,6 +768,10 @@ def run_layout(ctx: Ctx, out: Outcome, spec: dict, si: int, model_cases: list | 
         from props import c06_model
 
         phase("model-tie", lambda: c06_model.collect(ctx, out, spec, mono, frag, lay_f, model_cases, tag))
+    if read_cases is not None:
+        from props import c06_reads
+
+        phase("reads-tie", lambda: c06_reads.collect(ctx, out, spec, mono, frag, lay_f, read_cases, tag))
     if spec.get("hints") or si % ctx.pick(3, 5) == 0:
         phase("edits", lambda: edits_and_save(ctx, local, spec, mono, frag, lay_m, lay_f, tag))
     out.evaluations += local.evaluations
@@ -795,12 +799,17 @@ def run(ctx: Ctx) -> Outcome:
                             "airdfragment_indirection": sum(1 for s in specs if s.get("airdfragments")),
                             "relocated_main": sum(1 for s in specs if s.get("main_rel"))}
     model_cases: list | None = [] if os.environ.get("VERIF_NO_MODEL") != "1" and (common.LEAN / "Capella/Driver/Frag.lean").exists() else None
+    read_cases: list | None = [] if model_cases is not None and (common.LEAN / "Capella/Driver/RelRead.lean").exists() else None
     for si, spec in enumerate(specs):
-        run_layout(ctx, out, spec, si, model_cases)
+        run_layout(ctx, out, spec, si, model_cases, read_cases)
     if model_cases:
         from props import c06_model
 
         c06_model.compare(out, model_cases)
+    if read_cases:
+        from props import c06_reads
+
+        c06_reads.compare(out, read_cases)
     return out
 
 
@@ -821,7 +830,7 @@ def _replay(ctx: Ctx, case: dict):
     o = Outcome()
     ctx.rng.seed(0)
     run_layout(ctx, o, spec, 0 if case.get("kind") == "edits" else 1, None)
-    kinds = {"object": "api|", "search": "api|search", "nav": "loader|", "edits": ("edit|", "edits|", "edited|", "save|", "after-edits|"), "layout": ("load|", "compare|", "model-tie|")}
+    kinds = {"object": "api|", "search": "api|search", "nav": "loader|", "edits": ("edit|", "edits|", "edited|", "save|", "after-edits|"), "layout": ("load|", "compare|", "model-tie|", "reads-tie|")}
     want = kinds.get(case.get("kind"), "")
     for f in o.findings:
         if f.signature.startswith(want):
